@@ -23,6 +23,7 @@ type c05 struct {
 	q   *heapq.Queue[int]
 	log []string
 	st  *Stats
+	lg  lgTrack
 }
 
 func (r *c05) cb(v, pos int) { r.log = append(r.log, fmt.Sprintf("%d@%d", v, pos)) }
@@ -30,6 +31,7 @@ func (r *c05) cb(v, pos int) { r.log = append(r.log, fmt.Sprintf("%d@%d", v, pos
 func (r *c05) obs(res string) string {
 	var d []int
 	r.q.Each(func(v int) bool { d = append(d, v); return true })
+	r.lg.see(r.st, "heapq", len(d))
 	s := fmt.Sprintf("r=%s;d=%s;m=[%s]", res, fmtInts(d), strings.Join(r.log, " "))
 	r.log = r.log[:0]
 	return s
@@ -53,6 +55,7 @@ func (r *c05) Exec(op []string) string {
 		data := ints(op[2:])
 		r.q = heapq.NewWithData(cmp, data).Update(r.cb)
 		r.log = r.log[:0]
+		r.lg.reset()
 		if len(data) >= 15 {
 			r.st.Note("heapify>=4levels")
 		}
@@ -97,6 +100,9 @@ func (r *c05) Exec(op []string) string {
 		v, ok := r.q.Remove(i)
 		return r.obs(fmtPop(v, ok))
 	case "set":
+		if before, now := r.q.Len(), len(op)-1; before >= 33 && 4*now < before {
+			r.st.Note("heapq-set-shrinks-below-a-quarter-from" + c10sizeClass(before))
+		}
 		r.q.Set(ints(op[1:]))
 		r.st.Note("set")
 		if len(op) > 64 {
@@ -104,6 +110,9 @@ func (r *c05) Exec(op []string) string {
 		}
 		return r.obs("-")
 	case "reorder":
+		if cl := c10sizeClass(r.q.Len()); cl != "" {
+			r.st.Note("heapq-reorder-at-len" + cl)
+		}
 		if op[1] == "rev" {
 			r.q.Reorder(c05rcmp)
 		} else {
@@ -161,7 +170,99 @@ func (c *c05vals) list(n int) []string {
 	return out
 }
 
+// genC05Large: heaps past 512 and 1024 elements.  (The reference verdicts sort the whole contents on every line, so
+// a line costs O(n²) in the driver: the large phases are kept to a few dozen lines and the long drains to 520
+// elements in the quick tier.)  Built by NewWithData, by Set and by single Adds; Peek/Remove at deep offsets;
+// Reorder of the whole heap; drained by Pop below a quarter, regrown by Add, shrunk by Set below a quarter, regrown
+// by Set, cleared, used again, emptied.
+func genC05Large(g *G) {
+	type lc struct {
+		n    int
+		full bool // drain by single Pops all the way (otherwise a few Pops, then Set)
+	}
+	cs := []lc{{520, true}, {1030, false}, {260, true}}
+	if g.Thorough() {
+		cs = append(cs, lc{1030, true}, lc{2050, false}, lc{4100, false}, lc{513, true}, lc{700, true}, lc{130, true})
+	}
+	off := g.Intn(3)
+	for ci, c := range cs {
+		N := c.n
+		vals := &c05vals{g: g, keys: N/4 + g.Intn(N), used: map[int]int{}}
+		dir := []string{"asc", "rev"}[(ci+off)%2]
+		var ops []string
+		n := 0
+		switch (ci + off) % 3 {
+		case 0:
+			ops = append(ops, "reset "+dir+" "+strings.Join(vals.list(N), " "))
+		case 1:
+			ops = append(ops, "reset "+dir+" "+strings.Join(vals.list(5), " "), "set "+strings.Join(vals.list(N), " "))
+		default:
+			if c.full {
+				ops = append(ops, "reset "+dir)
+				for i := 0; i < N; i++ {
+					ops = append(ops, "add "+strconv.Itoa(vals.next()))
+				}
+			} else {
+				ops = append(ops, "reset "+dir+" "+strings.Join(vals.list(N-12), " "))
+				for i := 0; i < 12; i++ {
+					ops = append(ops, "add "+strconv.Itoa(vals.next()))
+				}
+			}
+		}
+		n = N
+		pops := func(k int) {
+			for i := 0; i < k && n > 0; i++ {
+				ops = append(ops, "pop")
+				n--
+			}
+		}
+		adds := func(k int) {
+			for i := 0; i < k; i++ {
+				ops = append(ops, "add "+strconv.Itoa(vals.next()))
+				n++
+			}
+		}
+		ops = append(ops, "front", fmt.Sprintf("peek %d", n-1), fmt.Sprintf("peek %d", n), fmt.Sprintf("peek %d", n/2), "each 3", "len")
+		for _, i := range []int{n - 1, n / 2, n - n/8, 1, n/2 + 1} {
+			ops = append(ops, fmt.Sprintf("remove %d", i))
+			n--
+		}
+		adds(3)
+		pops(6)
+		dir = map[string]string{"asc": "rev", "rev": "asc"}[dir]
+		ops = append(ops, "reorder "+dir)
+		pops(4)
+		if c.full {
+			pops(n - (N/4 - 1)) // below a quarter, one Pop at a time
+			adds(N/2 - n)       // regrow to a half
+			pops(n - 8)
+			adds(40)
+		} else {
+			m := N/4 - 3
+			ops = append(ops, "set "+strings.Join(vals.list(m), " ")) // shrink by Set below a quarter
+			n = m
+			pops(10)
+			adds(5)
+			ops = append(ops, "reorder "+map[string]string{"asc": "rev", "rev": "asc"}[dir])
+			pops(3)
+			ops = append(ops, "set "+strings.Join(vals.list(N+1), " ")) // regrow by Set past N
+			n = N + 1
+			pops(3)
+			ops = append(ops, fmt.Sprintf("remove %d", n-1), fmt.Sprintf("peek %d", n-2))
+			n--
+			ops = append(ops, "set "+strings.Join(vals.list(30), " "))
+			n = 30
+		}
+		ops = append(ops, "clear", "pop", "front")
+		n = 0
+		adds(36)
+		pops(37)
+		g.Each(ops)
+	}
+}
+
 func genC05(g *G) {
+	genC05Large(g)
 	cases := g.Scale(500, 15000)
 	maxOps := g.Scale(90, 400)
 	for c := 0; c < cases; c++ {
@@ -309,6 +410,9 @@ func genC05deep(g *G) []string {
 
 type c05sort struct{ st *Stats }
 
+// c05sortBig: a Sort of 256 or more elements has run in this process (a runner lives for one case only)
+var c05sortBig bool
+
 func (r *c05sort) Exec(op []string) string {
 	if op[0] == "reset" {
 		return "-"
@@ -321,6 +425,15 @@ func (r *c05sort) Exec(op []string) string {
 	if len(vs) >= 2 {
 		r.st.Note("sort>=2")
 	}
+	if cl := c10sizeClass(len(vs)); cl != "" {
+		r.st.Note("sort" + cl)
+	}
+	if c05sortBig && len(vs) < 64 {
+		r.st.Note("small-sort-after-a-sort>=256-in-this-process")
+	}
+	if len(vs) >= 256 {
+		c05sortBig = true
+	}
 	if len(vs) >= 255 {
 		r.st.Note("sort>=255")
 	} else if len(vs) >= 40 {
@@ -332,9 +445,11 @@ func (r *c05sort) Exec(op []string) string {
 
 func genC05sort(g *G) {
 	cases := g.Scale(1500, 40000)
-	big := []int{255, 256, 300, 1000} // a few LARGE inputs: size-dependent paths (buffer policies, deep heaps)
+	// a few LARGE inputs: size-dependent paths (buffer policies, deep heaps); the many small inputs that follow in
+	// the same process are the carry-over cases (a pooled or cached buffer left behind by a large Sort)
+	big := []int{255, 256, 300, 1000, 512, 513, 1025, 64, 65, 257}
 	if g.Thorough() {
-		big = append(big, 2048, 4096, 10000)
+		big = append(big, 2048, 4096, 10000, 4097, 1024, 2049)
 	}
 	for c := 0; c < cases; c++ {
 		n := g.Intn(g.Scale(40, 200))
